@@ -10,6 +10,7 @@ import os, sys, json, copy, hashlib
 import core, gennb, pyspec
 import c03_common as K
 import c10_spec as S
+import c10_gen
 
 PROP = 'C10'
 ASSUME = [
@@ -88,8 +89,9 @@ def first_diffs(a, b, path='', out=None, limit=4):
     return out[:limit]
 
 
-def evaluate(sb, triples, tier, chk=None):
-    """returns list of (triple index, kind, scfg, ocfg, signature, detail, n_relabelled)"""
+def evaluate(sb, triples, tier, chk=None, stats=None):
+    """returns list of (triple index, kind, scfg, ocfg, signature, detail, n_relabelled); stats (a dict), if given, receives
+    'id_conflicts': {triple index: largest number of conflicted cell-id decisions in one of its open runs}"""
     plans = plan(True) + plan(False)
     cfgs = []
     for kind, s, o in plans:
@@ -107,6 +109,9 @@ def evaluate(sb, triples, tier, chk=None):
             if 'ok' in sres and 'ok' in ores:
                 T = S.spec_table(*s[:4])
                 rel, n = S.relabel(ores['ok']['decisions'], T)
+                if stats is not None:
+                    ic = stats.setdefault('id_conflicts', {})
+                    ic[ti] = max(ic.get(ti, 0), len(c10_gen.id_conflicts(ores['ok']['decisions'])))
                 jobs.append({'op': 'apply', 'b': t['b'], 'decisions': rel})
                 try:
                     own = S.spec_apply(copy.deepcopy(t['b']), rel)
@@ -148,11 +153,20 @@ def run(tier, seed):
         for i in range(n):
             t = gennb.gen_triple(r, conflict_bias=[0.9, 1.0, 0.7][i % 3])
             triples.append({'b': t[0], 'l': t[1], 'r': t[2], 'src': 'gen'})
-        results = evaluate(sb, triples, tier)
+        # conflicts on the cell id: the one leaf conflict whose table entry ('remove') the leaf resolution cannot apply, so the
+        # use-X further out has to settle it (harness/c10_gen.py); drawn after the random triples so that those stay as they were
+        fam = c10_gen.id_conflict_triples(r, 24 if tier == 'quick' else 240)
+        fam0 = len(triples); triples += fam
+        stats = {}
+        results = evaluate(sb, triples, tier, stats=stats)
+        fam_eff = sum(1 for ti in range(fam0, fam0 + len(fam)) if stats.get('id_conflicts', {}).get(ti, 0) > 0)
+        if fam_eff < len(fam) // 2:
+            chk.broken_obligation('id-conflict-family-effective', 'only %d of %d triples of the cell-id family produced a conflicted cell-id decision in an open run' % (fam_eff, len(fam)))
         evals = 0; nontrivial = set(); hist = {}; fails = {}
         for (ti, kind, s, o, sig, detail, nrel) in results:
             evals += 1
             hist[str(kind)] = hist.get(str(kind), 0) + 1
+            if ti >= fam0: hist['family:id-conflict'] = hist.get('family:id-conflict', 0) + 1
             if nrel > 0:
                 nontrivial.add((hashlib.sha1(pyspec.canon([triples[ti]['b'], triples[ti]['l'], triples[ti]['r']]).encode()).hexdigest(), json.dumps(s)))
             if sig:
@@ -172,8 +186,8 @@ def run(tier, seed):
             'evaluations': evals, 'distinct_nontrivial': len(nontrivial),
             'rule': 'one evaluation = one (triple, placement of use-X, transients) comparison: strategy run vs open run relabelled and applied twice (nbdime apply_decisions, own applier) + conflict-flag and source-line checks. '
                     'Placements: use-X as --merge-strategy; as --input-strategy or --output-strategy under merge strategy inline; six mixed (merge,input,output) assignments; each with transients ignored and not. '
-                    'Triples: corpus, repository fixtures, gennb.gen_triple with forced collisions. non-trivial = at least one conflicted decision of the open run was relabelled; distinct by canonical JSON of the triple + configuration',
-            'input_distribution': hist, 'triples': len(triples), 'traces_validated_against_impl': t1, 'model_impl_mismatches': t1_bad, 'exhaustive': False,
+                    'Triples: corpus, repository fixtures, gennb.gen_triple with forced collisions, c10_gen.id_conflict_triples (both branches change / add / remove the id of the same cell: re-id on both, 4.x->4.5 upgrade on both, downgrade vs re-id; alone or with a source conflict on that cell, another forced collision, a one-sided edit). non-trivial = at least one conflicted decision of the open run was relabelled; distinct by canonical JSON of the triple + configuration',
+            'input_distribution': hist, 'triples': len(triples), 'id_conflict_family': {'triples': len(fam), 'with_conflicted_id_decision_in_open_run': fam_eff}, 'traces_validated_against_impl': t1, 'model_impl_mismatches': t1_bad, 'exhaustive': False,
             'partial': 'the equivalence is proved for the leaf level (tryresolve) and for resolve_strategy_generic on arbitrary builders; its lifting through the merge recursion is explored on the implementation only',
         })
         for t in triples[:1] + triples[-2:]:
